@@ -296,6 +296,9 @@ def decide_all(obls, tier, workers=16, log=None, models=True, on_sat=None, stop_
     undecided obligations are left 'skipped' — the run is a VIOLATION whatever they are."""
     cap = cap or (180 if tier == "quick" else 400)
     t0 = time.time()
+    # wall-clock budget of the whole deciding phase (clean-tree runs need < 2 min quick / < 10 min thorough): once it is
+    # spent, obligations still open are `unknown` — the run is then inconclusive (exit 2) unless a violation was confirmed
+    deadline = t0 + (900 if tier == "quick" else 3600)
     # pass 1: batches per (case, theory) with a short per-query limit
     groups = {}
     for o in obls:
@@ -342,6 +345,11 @@ def decide_all(obls, tier, workers=16, log=None, models=True, on_sat=None, stop_
         EVERY open obligation; phase 2: the long solver run under the tier cap for what is still open. A violation that cheap
         steps can find is therefore found before any long run starts."""
         if phase == 2 and not o.get("_open"):
+            return
+        if time.time() > deadline and o["verdict"] != "sat":
+            if phase == 2 or o["verdict"] != "unsat":
+                o.update({"verdict": "unknown", "solver": None, "model": {}, "solver_log": [("budget", "wall-clock budget of the deciding phase exhausted", 0.0)]})
+            o["_open"] = False
             return
         if confirmed[0] >= stop_after or (o["case"] in violated_cases and o["verdict"] != "sat"):
             # after 6 confirmed violations, or once this obligation's own case has one (the case is a VIOLATION already)
